@@ -359,7 +359,8 @@ class MixtureOfGaussiansMADE(MADE):
 
         with torch.no_grad():
 
-            samples = torch.zeros(context.shape[0], self.features)
+            num_rows = num_samples if context is None else context.shape[0]
+            samples = torch.zeros(num_rows, self.features)
 
             for feature in range(self.features):
                 outputs = self.forward(samples, context)
@@ -382,9 +383,11 @@ class MixtureOfGaussiansMADE(MADE):
                     stds.gather(1, components).reshape(-1),
                 )
                 samples[:, feature] = (
-                    means + torch.randn(context.shape[0]) * stds
+                    means + torch.randn(num_rows) * stds
                 ).detach()
 
+        if context is None:
+            return samples
         return samples.reshape(-1, num_samples, self.features)
 
     def _initialize(self):
